@@ -1,4 +1,5 @@
 import N0Verif.Py.Basic
+import N0Verif.Gen.Cp1252
 /-!
   Model of `save_file`, `load_file`, `load_lines` (n0struct/n0struct_files.py) over an
   abstract file system, together with the part of Python's `open()` the three functions use:
@@ -15,10 +16,13 @@ import N0Verif.Py.Basic
   parameter (`Codec`): `enc`/`dec` are the BOM-less body encoder/decoder, `bom` the mark that
   `str.encode(encoding)` puts in front (empty for utf-8, latin-1, cp1252).  The four codecs
   the property quantifies over are defined concretely at the end of the file (used by the
-  driver and validated against CPython by correspondence streams).
+  driver and validated against CPython by correspondence streams); the cp1252 table is not
+  written by hand but generated from the interpreter (`Gen/Cp1252.lean`).
 
-  The code modelled is the code **with the fix `C15-close` applied** (`out_filehandler.close()`):
-  every write reaches the file before `save_file` returns.
+  The code modelled is the code **with the fixes `C15-close` and `C15-a` applied**
+  (`out_filehandler.close()`: every write reaches the file before `save_file` returns; on the
+  manual path the codec's signature is taken off every encoded piece and written once, in
+  front of the first piece, when the file has no content yet).
 -/
 namespace N0.Files
 open N0 N0.Py
@@ -114,7 +118,9 @@ inductive Data
 structure Out where
   content : Bytes
   binary : Bool
-  /-- text layer: nothing written yet and the stream is at offset 0 (the encoder will emit its mark) -/
+  /-- the start-of-stream mark is still to be written.  Text layer: nothing written yet and the
+  stream is at offset 0 (the incremental encoder will emit its mark).  Binary handle: `pending`
+  of `save_file` is not empty yet (text payload, `tell() == 0` after `open`). -/
   fresh : Bool
   /-- text layer: the `newline=` argument -/
   nl : Str
@@ -124,10 +130,11 @@ def lf : Str := ['\n']
 def crlf : Str := ['\r', '\n']
 def cr : Str := ['\r']
 
-/-- `out_filehandler.write(x)` -/
+/-- `out_filehandler.write(x)`; on the binary handle together with the
+`line, pending = pending + line, b''` / `output_buffer = pending + output_buffer` in front of it -/
 def Out.write (c : Codec) (o : Out) (d : Data) : PyM Out :=
   match o.binary, d with
-  | true, .b x => .ok { o with content := o.content ++ x }
+  | true, .b x => .ok { o with content := o.content ++ (if o.fresh then c.bom else []) ++ x, fresh := false }
   | true, .s _ => .error .TypeError
   | false, .b _ => .error .TypeError
   | false, .s x =>
@@ -167,11 +174,13 @@ def setB (mode : Str) : PyM Str :=
   | [] => .error .IndexError
   | m0 :: _ => .ok (m0 :: 'b' :: mode.drop 2)
 
-/-- the conversion of one element of a list payload (lines 85–92) -/
+/-- the conversion of one element of a list payload (the `if 'b' in mode` / `else` of the loop).
+On the binary handle `str(line).encode(encoding)[len(signature):]` is the body encoding: a list
+payload is never `bytes`, so `signature` is the codec's mark there. -/
 def convLine (c : Codec) (bin : Bool) : Line → PyM Data
-  | .str s => if bin then (match c.encode s with | some b => .ok (.b b) | none => .error .ValueError) else .ok (.s s)
+  | .str s => if bin then (match c.enc s with | some b => .ok (.b b) | none => .error .ValueError) else .ok (.s s)
   | .bytes b => if bin then .ok (.b b) else (match c.decode b with | some s => .ok (.s s) | none => .error .ValueError)
-  | .other r => if bin then (match c.encode r with | some b => .ok (.b b) | none => .error .ValueError) else .ok (.s r)
+  | .other r => if bin then (match c.enc r with | some b => .ok (.b b) | none => .error .ValueError) else .ok (.s r)
 
 /-- the `for line in output_buffer` loop; the stream reached so far is returned also when a
 line fails -/
@@ -215,25 +224,32 @@ def toBuf (tag : Str) : Payload → Buf
   | .bytes b => .b b
   | .lines xs => .ls xs
 
-/-- lines 73–78 and 83–97: the manual path (binary handle, `'\n'` replaced by hand, every piece
-encoded by its own `str.encode(encoding)` call) -/
+def Buf.isBytes : Buf → Bool
+  | .b _ => true
+  | _ => false
+
+/-- the manual path (binary handle, `'\n'` replaced by hand, every piece encoded by its own
+`str.encode(encoding)` call).  `signature` is `b''` for a bytes payload and the codec's mark
+otherwise; `x.encode(encoding)[len(signature):]` is then the body encoding `c.enc x` (for a bytes
+payload the EOL keeps its mark, and is never written).  `pending` — the mark still to be written
+in front of the first piece — is the signature iff `tell() == 0` right after `open`. -/
 def saveBinary (c : Codec) (fs : FS) (path : Str) (buf1 : Buf) (mode2 eol : Str) : FS × PyM Unit :=
   match setB mode2 with
   | .error e => (fs, .error e)
   | .ok mode3 =>
     match (match buf1 with
-           | .s x => (c.encode (replace lf eol x)).map Buf.b
+           | .s x => (c.enc (replace lf eol x)).map Buf.b
            | other => some other) with
     | none => (fs, .error .ValueError)
     | some buf2 =>
-      match c.encode eol with
+      match (if buf1.isBytes then c.encode eol else c.enc eol) with
       | none => (fs, .error .ValueError)
       | some eolB =>
         match parseMode mode3 >>= openOut fs path with
         | .error e => (fs, .error e)
         | .ok content =>
           finish fs path (writeAll c (mode3.contains 'b') (.b eolB)
-            { content := content, binary := true, fresh := false, nl := [] } buf2)
+            { content := content, binary := true, fresh := !buf1.isBytes && content.isEmpty, nl := [] } buf2)
 
 /-- lines 80–81 and 83–97: the text layer does the newline translation and the encoding -/
 def saveText (c : Codec) (fs : FS) (path : Str) (buf1 : Buf) (mode2 eol : Str) : FS × PyM Unit :=
@@ -371,29 +387,29 @@ def latin1 : Codec :=
     enc := fun s => if s.all isByte then some s else none
     dec := fun b => if b.all isByte then some b else none }
 
-/-- code points of the cp1252 bytes 0x80..0x9F (0 = undefined) -/
-def cp1252High : List Nat :=
-  [0x20AC, 0, 0x201A, 0x0192, 0x201E, 0x2026, 0x2020, 0x2021, 0x02C6, 0x2030, 0x0160, 0x2039, 0x0152, 0, 0x017D, 0,
-   0, 0x2018, 0x2019, 0x201C, 0x201D, 0x2022, 0x2013, 0x2014, 0x02DC, 0x2122, 0x0161, 0x203A, 0x0153, 0, 0x017E, 0x0178]
+/-! #### single-byte table codecs
 
-def cp1252DecByte (b : Char) : Option Char :=
-  let n := b.toNat
-  if n < 0x80 || (0xA0 ≤ n && n < 0x100) then some b
-  else if n < 0xA0 then
-    match cp1252High[n - 0x80]? with
-    | some 0 => none
-    | some cp => some (Char.ofNat cp)
-    | none => none
-  else none
+A charmap codec is given by its decoding table (entry `b` = code point of byte `b`, `none` =
+undefined byte); the encoder is derived from the same table — the first byte holding the code
+point — as CPython derives `encoding_table` from `decoding_table` (`codecs.charmap_build`). -/
 
-def cp1252EncChar (ch : Char) : Option Char :=
-  let n := ch.toNat
-  if n < 0x80 || (0xA0 ≤ n && n < 0x100) then some ch
-  else
-    match cp1252High.idxOf? n with
-    | some i => if n = 0 then none else some (Char.ofNat (0x80 + i))
-    | none => none
+/-- first index, counted from `i`, of the entry holding code point `n` -/
+def tableFind (n : Nat) : List (Option Nat) → Nat → Option Nat
+  | [], _ => none
+  | e :: t, i => if e = some n then some i else tableFind n t (i + 1)
 
-def cp1252 : Codec := { bom := [], enc := fun s => s.mapM cp1252EncChar, dec := fun b => b.mapM cp1252DecByte }
+def tableDecByte (t : List (Option Nat)) (b : Char) : Option Char :=
+  match t[b.toNat]? with
+  | some (some cp) => some (Char.ofNat cp)
+  | _ => none
+
+def tableEncChar (t : List (Option Nat)) (ch : Char) : Option Char :=
+  (tableFind ch.toNat t 0).map Char.ofNat
+
+def tableCodec (t : List (Option Nat)) : Codec :=
+  { bom := [], enc := fun s => s.mapM (tableEncChar t), dec := fun b => b.mapM (tableDecByte t) }
+
+/-- cp1252: the table is generated from the running interpreter (`harness/translate_cp1252.py`) -/
+def cp1252 : Codec := tableCodec Gen.Cp1252.table
 
 end N0.Files
